@@ -55,10 +55,30 @@ def opRedisURL (l : Line) : Except String String := do
 /-- `cfg.store_uses_validated kind=<memory|redis> …` → the store built from any configuration works (`put=ok`) -/
 def opStoreNew (_ : Line) : Except String String := pure "put=ok\tnew"
 
+/-- `cfg.hooks list=<entries>`: `HooksFromHookConfigs` builds the hooks in order and stops at the first entry that is
+refused. Entries: `unknown` (no such driver), `ca:<ok|both|badlen>`, `ta:<ok|both|badhex>`,
+`vi:<pn>:<pd>:<delta>` (interval variation with probability pn/pd and that delta). -/
+def entryOK (e : String) : Bool :=
+  match e.splitOn ":" with
+  | ["ca", "ok"] | ["ta", "ok"] => true
+  | ["vi", pn, pd, d] =>
+    match pn.toInt?, pd.toNat?, d.toInt? with
+    | some pn, some pd, some d => decide (0 < pn) && decide (pn ≤ (pd : Int)) && decide (0 < d)
+    | _, _, _ => false
+  | _ => false
+
+def opHooks (l : Line) : Except String String := do
+  let spec := l.get "list"
+  let es := if spec == "-" || spec == "" then [] else spec.splitOn ","
+  match (es.zipIdx.find? fun (e, _) => !entryOK e) with
+  | some (_, i) => pure s!"refused at={i}\trefused"
+  | none => pure s!"built n={es.length}\tbuilt"
+
 def handle (l : Line) : Option (Except String String) :=
   match l.op with
   | "cfg.validate" => some (opValidate l)
   | "cfg.new" => some (opNew l)
+  | "cfg.hooks" => some (opHooks l)
   | "cfg.redisurl" => some (opRedisURL l)
   | "cfg.store_new" => some (opStoreNew l)
   | _ => none
